@@ -15,6 +15,7 @@ type gen struct {
 	n   int // exchange counter
 	// things noted but not alarmed on
 	oddOrderedSilent int
+	alteredNames     int
 }
 
 func (g *gen) nextX() string { g.n++; return fmt.Sprintf("c%d", g.n) }
